@@ -1635,7 +1635,16 @@ type ProposalMessage struct {
 
 // ValidateBasic performs basic validation.
 func (m *ProposalMessage) ValidateBasic() error {
-	return m.Proposal.ValidateBasic()
+	if err := m.Proposal.ValidateBasic(); err != nil {
+		return err
+	}
+	// The reactor allocates a bit array of PartSetHeader.Total bits for the peer
+	// (PeerState.SetHasProposal) before the proposal's signature is looked at.
+	if m.Proposal.BlockID.PartSetHeader.Total > types.MaxBlockPartsCount {
+		return fmt.Errorf("proposal's PartSetHeader.Total is too big: %d, max: %d",
+			m.Proposal.BlockID.PartSetHeader.Total, types.MaxBlockPartsCount)
+	}
+	return nil
 }
 
 // String returns a string representation.
